@@ -72,10 +72,19 @@ class Prop(PropBase):
             s.lines.append(cfg.line(0, lj)); s.lines.append(f'N 0 3 {msop} {difop} 0 0')
             big = scen.mems_msop(rng, lj, 1)
             frs = fragments(big, msop, 0x1234, [1480])
-            kinds = ['train', 'tot_lt_ihl', 'tot_lt_ihl', 'overflow', 'udp_short', 'cut', 'runt', 'ihl_small']
+            kinds = ['train', 'tot_lt_ihl', 'tot_lt_ihl', 'overflow', 'udp_short', 'cut', 'runt', 'ihl_small', 'orphans', 'orphans_big', 'train']
             rng.shuffle(kinds)
             for kind in kinds:
-                if kind == 'train':
+                if kind in ('orphans', 'orphans_big'):
+                    # first fragments whose tails never come, each of another identification (the third way an assembly ends:
+                    # superseded): every one starts at the beginning of the buffer, however many there are; then a complete train
+                    nfr, sz = (50, 1480) if kind == 'orphans' else (3, 40000)
+                    for q in range(nfr):
+                        f = udp_frame(b'', msop, raw_ip_payload=(6699).to_bytes(2, 'big') + msop.to_bytes(2, 'big') + bytes(sz - 4), ip_id=0x3000 + q, frag_off=0, more=True)
+                        s.lines.append(f'F 0 {len(f)} {f.hex()}')
+                    for f in fragments(big, msop, 0x4000, [1480]):
+                        s.lines.append(f'F 0 {len(f)} {f.hex()}')
+                elif kind == 'train':
                     for f in frs:
                         s.lines.append(f'F 0 {len(f)} {f.hex()}')
                 elif kind == 'tot_lt_ihl':
